@@ -28,7 +28,13 @@ Unk == <<2, Z, Z>>
 Und == <<1, Z, Z>>
 Bad(st) == <<st, Z, Z>>
 Mk(v, d) == IF RIsOvf(v) \/ RIsOvf(d) THEN Unk ELSE <<0, v, d>>
+\* the derivative component is only computed when a differentiation variable is given (TLC evaluates operator arguments on demand)
+MkD(dx, v, d) == IF dx = "" THEN (IF RIsOvf(v) THEN Unk ELSE <<0, v, Z>>) ELSE Mk(v, d)
 MaxN(a, b) == IF a >= b THEN a ELSE b
+\* integer fast paths (no gcd) in front of Rat's operations; same results
+QAdd(x, y) == IF x[2] = 1 /\ y[2] = 1 THEN (LET t == x[1] + y[1] IN IF RFits(t) THEN <<t, 1>> ELSE ROvf) ELSE RAdd(x, y)
+QSub(x, y) == IF x[2] = 1 /\ y[2] = 1 THEN (LET t == x[1] - y[1] IN IF RFits(t) THEN <<t, 1>> ELSE ROvf) ELSE RSub(x, y)
+QMul(x, y) == IF x[2] = 1 /\ y[2] = 1 THEN (IF MulFits(x[1], y[1]) THEN <<x[1] * y[1], 1>> ELSE ROvf) ELSE RMul(x, y)
 
 Cmps == {"=", "!=", "<", "<=", ">", ">="}
 Ariths == {"+", "-", "*", "/", "^"}
@@ -107,25 +113,26 @@ Deg(e, x) ==
 (* ------------------------------------------------------------------------------------------------ *)
 (* Polynomials as coefficient sequences over Rat (lowest degree first) and Newton interpolation.     *)
 \* coefficients of binom(x, k)
+\* (TLC builds [i \in S |-> ...] lazily and re-evaluates the body at every application: `\o <<>>` / `@@ <<>>` make the value concrete)
 RECURSIVE BinP(_)
 BinP(k) == IF k = 0 THEN <<One>>
            ELSE LET p == BinP(k - 1) IN           \* times (x - (k-1)) / k
                 [i \in 1..(k + 1) |-> RDiv(RSub(IF i > 1 THEN p[i - 1] ELSE Z,
-                                                IF i <= k THEN RMul(RInt(k - 1), p[i]) ELSE Z), RInt(k))]
-BinTab == [k \in 0..MaxDeg |-> BinP(k)]
+                                                IF i <= k THEN RMul(RInt(k - 1), p[i]) ELSE Z), RInt(k))] \o <<>>
+BinTab == [k \in 0..MaxDeg |-> BinP(k)] @@ <<>>
 \* forward differences  d[k+1] = Delta^k f(0)  of the samples s[1..n+1] = f(0..n)
 RECURSIVE DiffSeq(_)
 DiffSeq(s) == IF Len(s) <= 1 THEN s
-              ELSE <<s[1]>> \o DiffSeq([i \in 1..(Len(s) - 1) |-> RSub(s[i + 1], s[i])])
+              ELSE <<s[1]>> \o DiffSeq([i \in 1..(Len(s) - 1) |-> QSub(s[i + 1], s[i])])
 RECURSIVE SumCoef(_, _, _, _)
-SumCoef(d, i, k, n) == IF k > n THEN Z ELSE RAdd(RMul(d[k + 1], BinTab[k][i]), SumCoef(d, i, k + 1, n))
+SumCoef(d, i, k, n) == IF k > n THEN Z ELSE QAdd(QMul(d[k + 1], BinTab[k][i]), SumCoef(d, i, k + 1, n))
 \* monomial coefficients c[1..n+1] (c[i] is the coefficient of x^(i-1)) of the interpolant of the samples
 Coeffs(s) == LET n == Len(s) - 1  d == DiffSeq(s) IN [i \in 1..(n + 1) |-> SumCoef(d, i, i - 1, n)]
 RECURSIVE HornerP(_, _, _)
-HornerP(c, t, i) == IF i > Len(c) THEN Z ELSE RAdd(c[i], RMul(t, HornerP(c, t, i + 1)))
+HornerP(c, t, i) == IF i > Len(c) THEN Z ELSE QAdd(c[i], QMul(t, HornerP(c, t, i + 1)))
 PolyAt(c, t) == HornerP(c, t, 1)
 \* value at t of the antiderivative (with value 0 at 0)
-AntiAt(c, t) == RMul(t, PolyAt([i \in 1..Len(c) |-> RDiv(c[i], RInt(i))], t))
+AntiAt(c, t) == QMul(t, PolyAt([i \in 1..Len(c) |-> RDiv(c[i], RInt(i))], t))
 
 Ext(env, x, v) == [y \in (DOMAIN env) \cup {x} |-> IF y = x THEN v ELSE env[y]]
 IsIntQ(q) == ~RIsOvf(q) /\ q[2] = 1
@@ -139,19 +146,19 @@ EvPow(a, b, e, dx) ==
   ELSE IF ~IsIntQ(b[2]) \/ b[2][1] > 12 \/ b[2][1] < -12 THEN Unk
   ELSE LET n == b[2][1]  va == a[2] IN
     IF n = 0 THEN (IF va[1] = 0 THEN Unk ELSE <<0, One, Z>>)            \* 0 ^ 0 : not judged
-    ELSE IF n > 0 THEN Mk(RPow(va, n), RMul(RMul(RInt(n), RPow(va, n - 1)), a[3]))
+    ELSE IF n > 0 THEN MkD(dx, RPow(va, n), QMul(QMul(RInt(n), RPow(va, n - 1)), a[3]))
     ELSE IF va[1] = 0 THEN Und
-    ELSE Mk(RDiv(One, RPow(va, -n)), RMul(RDiv(RInt(n), RPow(va, 1 - n)), a[3]))
+    ELSE MkD(dx, RDiv(One, RPow(va, -n)), QMul(RDiv(RInt(n), RPow(va, 1 - n)), a[3]))
 
 EvOp(e, env, dx) ==
   IF e[2] \notin Ariths THEN Unk ELSE
   LET a == Ev(e[3], env, dx)  b == Ev(e[4], env, dx)  st == MaxSt(<<a, b>>) IN
   IF st # 0 THEN Bad(st)
-  ELSE CASE e[2] = "+" -> Mk(RAdd(a[2], b[2]), RAdd(a[3], b[3]))
-         [] e[2] = "-" -> Mk(RSub(a[2], b[2]), RSub(a[3], b[3]))
-         [] e[2] = "*" -> Mk(RMul(a[2], b[2]), RAdd(RMul(a[3], b[2]), RMul(a[2], b[3])))
+  ELSE CASE e[2] = "+" -> MkD(dx, QAdd(a[2], b[2]), QAdd(a[3], b[3]))
+         [] e[2] = "-" -> MkD(dx, QSub(a[2], b[2]), QSub(a[3], b[3]))
+         [] e[2] = "*" -> MkD(dx, QMul(a[2], b[2]), QAdd(QMul(a[3], b[2]), QMul(a[2], b[3])))
          [] e[2] = "/" -> IF b[2][1] = 0 THEN Und
-                          ELSE Mk(RDiv(a[2], b[2]), RDiv(RSub(RMul(a[3], b[2]), RMul(a[2], b[3])), RMul(b[2], b[2])))
+                          ELSE MkD(dx, RDiv(a[2], b[2]), RDiv(QSub(QMul(a[3], b[2]), QMul(a[2], b[3])), QMul(b[2], b[2])))
          [] e[2] = "^" -> EvPow(a, b, e, dx)
 
 EvInt(e, env, dx) ==
@@ -164,11 +171,11 @@ EvInt(e, env, dx) ==
       st2 == MaxSt(smp) IN
   IF st2 # 0 THEN Bad(st2) ELSE
   LET c == Coeffs([i \in 1..(D + 1) |-> smp[i][2]])
-      val == RSub(AntiAt(c, hi[2]), AntiAt(c, lo[2])) IN
+      val == QSub(AntiAt(c, hi[2]), AntiAt(c, lo[2])) IN
   IF dx = "" THEN Mk(val, Z) ELSE
   LET cd == Coeffs([i \in 1..(D + 1) |-> smp[i][3]])        \* Leibniz rule
-      dv == RAdd(RSub(AntiAt(cd, hi[2]), AntiAt(cd, lo[2])),
-                 RSub(RMul(PolyAt(c, hi[2]), hi[3]), RMul(PolyAt(c, lo[2]), lo[3]))) IN
+      dv == QAdd(QSub(AntiAt(cd, hi[2]), AntiAt(cd, lo[2])),
+                 QSub(QMul(PolyAt(c, hi[2]), hi[3]), QMul(PolyAt(c, lo[2]), lo[3]))) IN
   Mk(val, dv)
 
 EvEvalAt(e, env, dx) ==
@@ -179,13 +186,13 @@ EvEvalAt(e, env, dx) ==
       f0 == Ev(e[5], Ext(env, x, lo[2]), dxi)
       st2 == MaxSt(<<f1, f0>>) IN
   IF st2 # 0 THEN Bad(st2) ELSE
-  IF dx = "" THEN Mk(RSub(f1[2], f0[2]), Z) ELSE
+  IF dx = "" THEN Mk(QSub(f1[2], f0[2]), Z) ELSE
   \* chain rule through the bounds
   LET t1 == IF hi[3][1] = 0 THEN <<0, Z, Z>> ELSE Ev(e[5], Ext(env, x, hi[2]), x)
       t0 == IF lo[3][1] = 0 THEN <<0, Z, Z>> ELSE Ev(e[5], Ext(env, x, lo[2]), x)
       st3 == MaxSt(<<t1, t0>>) IN
   IF st3 # 0 THEN Bad(st3) ELSE
-  Mk(RSub(f1[2], f0[2]), RSub(RAdd(f1[3], RMul(t1[3], hi[3])), RAdd(f0[3], RMul(t0[3], lo[3]))))
+  Mk(QSub(f1[2], f0[2]), QSub(QAdd(f1[3], QMul(t1[3], hi[3])), QAdd(f0[3], QMul(t0[3], lo[3]))))
 
 RECURSIVE SumFrom(_, _, _, _, _, _)
 SumFrom(body, env, i, n, hi, dxi) ==
@@ -193,7 +200,7 @@ SumFrom(body, env, i, n, hi, dxi) ==
   ELSE LET t == Ev(body, Ext(env, i, RInt(n)), dxi) IN
        IF t[1] # 0 THEN Bad(t[1])
        ELSE LET r == SumFrom(body, env, i, n + 1, hi, dxi) IN
-            IF r[1] # 0 THEN Bad(r[1]) ELSE Mk(RAdd(t[2], r[2]), RAdd(t[3], r[3]))
+            IF r[1] # 0 THEN Bad(r[1]) ELSE MkD(dxi, QAdd(t[2], r[2]), QAdd(t[3], r[3]))
 EvSum(e, env, dx) ==
   LET i == e[2]  lo == Ev(e[3], env, "")  hi == Ev(e[4], env, "")  st == MaxSt(<<lo, hi>>) IN
   IF st # 0 THEN Bad(st)
@@ -215,7 +222,7 @@ Ev(e, env, dx) ==
   IF dx # "" /\ dx \notin FV(e) THEN LET r == Ev(e, env, "") IN <<r[1], r[2], Z>>
   ELSE CASE e[1] = "var" -> IF e[2] \in DOMAIN env THEN <<0, env[e[2]], IF e[2] = dx THEN One ELSE Z>> ELSE Unk
     [] e[1] = "const" -> IF e[3] > 0 THEN <<0, RNorm(e[2], e[3]), Z>> ELSE Unk
-    [] e[1] = "neg" -> LET a == Ev(e[2], env, dx) IN IF a[1] # 0 THEN a ELSE <<0, RNeg(a[2]), RNeg(a[3])>>
+    [] e[1] = "neg" -> LET a == Ev(e[2], env, dx) IN IF a[1] # 0 THEN a ELSE <<0, RNeg(a[2]), IF dx = "" THEN Z ELSE RNeg(a[3])>>
     [] e[1] = "op" -> EvOp(e, env, dx)
     [] e[1] = "int" -> EvInt(e, env, dx)
     [] e[1] = "evalat" -> EvEvalAt(e, env, dx)
@@ -261,7 +268,7 @@ SameValue(e, r, conds) ==
   LET pts == [vs -> Grid(Cardinality(vs))]
       adm == {env \in pts : \A i \in 1..Len(conds) : CondHolds(conds[i], env)}
       \* <<both defined, difference>>
-      dv == [env \in adm |-> LET a == Val(e, env)  b == Val(r, env)  d == RSub(a[2], b[2]) IN
+      dv == [env \in adm |-> LET a == Val(e, env)  b == Val(r, env)  d == QSub(a[2], b[2]) IN
                              IF a[1] # 0 \/ b[1] # 0 \/ RIsOvf(d) THEN <<FALSE, Z>> ELSE <<TRUE, d>>]
       cmp == {env \in adm : dv[env][1]} IN
   IF ~upto THEN << \E env \in cmp : dv[env][2] # Z, cmp # {} >>
